@@ -7,7 +7,7 @@ from hypothesis import strategies as st
 from pysmt.environment import Environment
 
 from vf import bp as B
-from vf.bp import BOOL, INT, REAL, STRING, BV, is_bv, is_fun, show, subterms
+from vf.bp import BOOL, INT, REAL, STRING, BV, is_bv, is_fun, show, subterms, sym
 from vf.refsem import reftype, IllTyped
 from vf.gen import G, Cfg
 from vf.harness import Run, Check, run_shards, drive, derive_seed
@@ -37,6 +37,12 @@ def check_history(run, probe, history, probes, oob):
     used = set()
     produced = []
     for call in history:
+        if call[0] == "!fresh":
+            # the environment has handed out fresh names before (FV9 -> FV10: names of another length / order)
+            for _ in range(call[1]):
+                envA.formula_manager.FreshSymbol()
+            run.cls("history-with-fresh-symbols")
+            continue
         if call[0] == "!fail":
             # a call that raises is part of what the environment was used for before
             if c15.do_fail(worldA, call[1]):
@@ -230,6 +236,12 @@ def gen_case(rnd):
         s0 = g.choice(subs)
         probes += [random_call(g, s0, forced=n) for n in ("theory", "size", "substitute", "get_types", "free_vars")]
     probes += forced_probes
+    if g.pct(15):
+        history.insert(0, ("!fresh", g.choice([8, 9, 10, 98, 99, 100])))
+        i_, r_ = ("i0", INT), ("r0", REAL)
+        atom = ("LT", (), (("TOREAL", (), (sym(*i_),)), sym(*r_)))
+        two = ("AND", (), (("FORALL", (i_, r_), (atom,)), atom) + ((probe,) if t == BOOL else ()))
+        probes += [("prenex", two, None), ("simplify", ("FORALL", (i_, r_), (("OR", (), (atom, atom)),)), None)]
     oob = [g.choice(OOB)] if g.pct(30) else []
     return probe, history, probes, oob
 
